@@ -238,6 +238,31 @@ Proof.
 Qed.
 Print Assumptions C04_bolt3_trimming.
 
+(** * The raw HTLC-transaction entry point ([sign_counterparty_htlc_tx] / [SignRemoteHtlcTx];
+      with the holder's keys and the other delay in [s], [k] also [sign_holder_htlc_tx]).  A
+      signature is returned only when the BIP143 digest of the supplied transaction equals the
+      digest of the second-stage transaction REBUILT from the channel's parameters (delay,
+      revocation and delayed keys), the direction read from the redeemscript and the commitment
+      txid / output index / expiry / fee read from the request; and the signature is over the
+      digest of that rebuilt transaction.  [accept_htlc] (the filterable [validate_htlc_tx]) is
+      universally quantified: no policy filter can make the signer sign another digest. *)
+Theorem C04_htlc_phase1_recomposed :
+  forall (sha : bytes -> bytes) (s : setup) (k : ckeys)
+         (SK SIG : Type) (sign : SK -> bytes -> SIG) (htlc_key : SK)
+         (accept_htlc : N -> bool -> N -> bool)
+         (t : tx) (redeem : bytes) (amount : N) (sig : SIG),
+    sign_htlc_phase1 sha s k SK SIG sign htlc_key accept_htlc t redeem amount = Ok sig ->
+    exists i0 ins o0 outs feerate offered re,
+      t_ins t = i0 :: ins /\ t_outs t = o0 :: outs
+      /\ htlc_side s redeem = Some offered
+      /\ htlc_tx sha s k (i_txid i0) feerate (i_vout i0) offered
+                 (mkHtlc amount [] (if offered then t_lock t else 0)) = Some re
+      /\ sighash sha t 0 redeem amount (htlc_sighash_type_p1 s)
+         = sighash sha re 0 redeem amount (htlc_sighash_type_p1 s)
+      /\ sig = sign htlc_key (sighash sha re 0 redeem amount (htlc_sighash_type_p1 s)).
+Proof. intros. eapply htlc_phase1_recomposed. eassumption. Qed.
+Print Assumptions C04_htlc_phase1_recomposed.
+
 (** * Non-vacuity: a zero-fee-anchors commitment with three offered HTLCs (two of them identical)
       and no to_remote output, taken from a run of the harness (keys derived there with
       libsecp256k1).  Every premise of [C04_entry_points_agree_sha256] holds, phase 2 signs the
